@@ -13,16 +13,16 @@ use crate::wr::{calls_from_tree, calls_json, run_calls, WCall, WRes};
 pub static DEF: PropDef = PropDef {
     id: "C19",
     level: "fault_enumeration",
-    rule: "each case: a valid call history H (random conformant tree, known/unknown/explicit-width masters, random Full collapsing; histories with a failing call are discarded) and one failure kind; the failing call(s) are inserted at EVERY position of H (quick: every position of histories up to 14 calls, else 8 random positions; thorough: every position) and H+ is run on a fresh writer to completion incl. into_inner(). Failure kinds: misplaced leaf / misplaced master Start / Utf8-Binary too long for the requested width / Full master too big for its width / unknown size on a leaf (both APIs) / malformed raw id / End of a master that is not innermost or with nothing open / Full containing an invalid child at depth 1-3 after 0-k valid children / two or three failing calls in a row. Oracle: inserted calls that return Ok are not failing calls (position is vacuous); otherwise every original call must return the same result kind as in H, into_inner() must end the same way, and the destination bytes must be identical. distinct = (failure kind, shadow-stack shape at the insertion point); non-trivial iff the shadow stack was non-empty at the insertion point.",
+    rule: "each case: a valid call history H (random conformant tree, known/unknown/explicit-width masters, random Full collapsing; histories with a failing call are discarded) and one failure kind; the failing call(s) are inserted at EVERY position of H (quick: every position of histories up to 14 calls, else 8 random positions; thorough: every position) and H+ is run on a fresh writer to completion incl. into_inner(). Failure kinds: misplaced leaf / misplaced master Start / Utf8-Binary too long for the requested width / Full master too big for its width / unknown size on a leaf (both APIs) / malformed raw id / End of a master that is not innermost or with nothing open / Full containing an invalid child (misplaced element, stray End, raw child with a malformed id) at depth 1-3 after 0-k valid children / two or three failing calls in a row / End of a master whose content does not fit the explicit size width it was started with (the accepted Start and content are part of both histories). Oracle: inserted calls that return Ok are not failing calls (position is vacuous); otherwise every original call must return the same result kind as in H, into_inner() must end the same way, and the destination bytes must be identical. distinct = (failure kind, shadow-stack shape at the insertion point); non-trivial iff the shadow stack was non-empty at the insertion point.",
     assumptions: &["I/O errors are outside the property and not injected here", "a candidate failing call that the writer accepts is not a C19 case (acceptance is C11's subject); such positions are counted as vacuous"],
     cases_quick: 80_000,
     cases_thorough: 500_000,
-    floors: &[("insertions_compared", 8000), ("distinct_nontrivial", 60), ("kinds_misplaced-leaf", 200), ("kinds_width-overflow-leaf", 200), ("kinds_wrong-end", 200), ("kinds_full-invalid-child", 200), ("kinds_unknown-on-leaf", 200), ("kinds_bad-raw-id", 200), ("kinds_full-width-overflow", 100)],
+    floors: &[("insertions_compared", 8000), ("distinct_nontrivial", 60), ("kinds_misplaced-leaf", 200), ("kinds_width-overflow-leaf", 200), ("kinds_wrong-end", 200), ("kinds_full-invalid-child", 200), ("kinds_unknown-on-leaf", 200), ("kinds_bad-raw-id", 200), ("kinds_full-width-overflow", 100), ("kinds_end-size-overflow", 100)],
     exhaustive_note: Some("insertion positions 0..=len(H) of each generated history (all of them in thorough; all of them for histories of <=14 calls in quick)"),
     run,
 };
 
-const KINDS: [&str; 9] = ["misplaced-leaf", "misplaced-master-start", "width-overflow-leaf", "full-width-overflow", "unknown-on-leaf", "bad-raw-id", "wrong-end", "full-invalid-child", "several-in-a-row"];
+const KINDS: [&str; 10] = ["misplaced-leaf", "misplaced-master-start", "width-overflow-leaf", "full-width-overflow", "unknown-on-leaf", "bad-raw-id", "wrong-end", "full-invalid-child", "several-in-a-row", "end-size-overflow"];
 
 /// chain of open masters (id, known?) after calls[..p]
 fn shadow_at(calls: &[WCall], p: usize) -> Vec<(u64, bool)> {
@@ -42,6 +42,24 @@ fn shadow_at(calls: &[WCall], p: usize) -> Vec<(u64, bool)> {
 
 fn sample_value(rng: &mut Rng, e: &Elem) -> Item {
     gen::gen_value(rng, e.id, e.ty, false)
+}
+
+/// (accepted calls to insert first, failing calls)
+fn make_failing2(rng: &mut Rng, spec: &Spec, kind: &str, chain: &[(u64, bool)]) -> Option<(Vec<WCall>, Vec<WCall>)> {
+    if kind == "end-size-overflow" {
+        // a master started with a 1- or 2-byte size field, filled beyond what that width can describe, then End: the End is rejected
+        let ids: Vec<u64> = chain.iter().map(|x| x.0).collect();
+        let allowed: Vec<&Elem> = spec.allowed_under(&ids);
+        let c: Vec<&&Elem> = allowed.iter().filter(|e| e.ty == Ty::Master && !e.is_global()).collect();
+        if c.is_empty() {
+            return None;
+        }
+        let e = **rng.pick(&c);
+        let (w, n) = *rng.pick(&[(1usize, 125usize), (1, 200), (2, 16381)]);
+        let prefix = vec![WCall::Write(Item::Start(e.id), SizeOpt::Width(w)), WCall::Write(Item::B(VOID_ID, rng.bytes(n)), SizeOpt::Default)];
+        return Some((prefix, vec![WCall::Write(Item::End(e.id), SizeOpt::Default)]));
+    }
+    make_failing(rng, spec, kind, chain).map(|f| (vec![], f))
 }
 
 fn make_failing(rng: &mut Rng, spec: &Spec, kind: &str, chain: &[(u64, bool)]) -> Option<Vec<WCall>> {
@@ -165,12 +183,37 @@ fn build_bad_full(rng: &mut Rng, spec: &Spec, e: &Elem, chain: &[u64], depth: us
         children.push(sample_value(rng, pick));
     }
     if depth <= 1 {
-        let bad: Vec<&Elem> = spec.elems.iter().filter(|x| x.ty != Ty::Master && !crate::spec::ref_path_match(&x.path, &ch)).collect();
-        if bad.is_empty() {
-            return None;
+        match rng.below(4) {
+            0 => {
+                // a stray End inside the Full: of another master, or of a master that is open further out
+                let masters = spec.masters();
+                let cands: Vec<u64> = masters.into_iter().filter(|m| *m != e.id).collect();
+                if cands.is_empty() {
+                    return None;
+                }
+                let id = if !chain.is_empty() && rng.chance(1, 2) { *rng.pick(chain) } else { *rng.pick(&cands) };
+                if id == e.id {
+                    return None;
+                }
+                children.push(Item::End(id));
+            }
+            1 => {
+                // a raw child with a malformed id
+                let id = *rng.pick(&[0u64, 1, 0x7F, 0x0100, 0x3FFF, 0x8000, 0xFFFF, 0x40]);
+                if crate::spec::ref_id_wellformed(id) || spec.get(id).is_some() {
+                    return None;
+                }
+                children.push(Item::Raw(id, vec![1, 2, 3]));
+            }
+            _ => {
+                let bad: Vec<&Elem> = spec.elems.iter().filter(|x| x.ty != Ty::Master && !crate::spec::ref_path_match(&x.path, &ch)).collect();
+                if bad.is_empty() {
+                    return None;
+                }
+                let pick: &Elem = *rng.pick(&bad);
+                children.push(sample_value(rng, pick));
+            }
         }
-        let pick: &Elem = *rng.pick(&bad);
-        children.push(sample_value(rng, pick));
     } else {
         let sub: Vec<&&Elem> = allowed.iter().filter(|x| x.ty == Ty::Master && !x.is_global()).collect();
         if sub.is_empty() {
@@ -215,13 +258,29 @@ fn run(c: &mut Case) {
     let positions: Vec<usize> = if c.tier == Tier::Thorough || h.len() <= 14 { (0..=h.len()).collect() } else { (0..8).map(|_| c.rng.urange(0, h.len())).collect() };
     for p in positions {
         let chain = shadow_at(&h, p);
-        let failing = match make_failing(&mut c.rng, &doc.spec, kind, &chain) {
+        let (prefix, failing) = match make_failing2(&mut c.rng, &doc.spec, kind, &chain) {
             Some(f) => f,
             None => {
                 c.count("vacuous_no_candidate");
                 continue;
             }
         };
+        // when accepted calls have to precede the failing one, the reference history contains them too
+        let base_local;
+        let (base, h): (&crate::wr::WRun, Vec<WCall>) = if prefix.is_empty() {
+            (&base, h.clone())
+        } else {
+            let mut hb: Vec<WCall> = h[..p].to_vec();
+            hb.extend(prefix.iter().cloned());
+            hb.extend(h[p..].iter().cloned());
+            base_local = run_calls(&hb, ScriptedWrite::new());
+            if base_local.results[..p + prefix.len()].iter().any(|r| !r.is_ok()) {
+                c.count("vacuous_prefix_rejected");
+                continue;
+            }
+            (&base_local, hb)
+        };
+        let p = p + prefix.len();
         let mut hp: Vec<WCall> = h[..p].to_vec();
         hp.extend(failing.iter().cloned());
         hp.extend(h[p..].iter().cloned());
